@@ -4,13 +4,18 @@ package c15
 import (
 	"bytes"
 	"fmt"
+	"sync"
 	"testing"
 	"time"
 
+	tally "github.com/uber-go/tally/v4"
+	"github.com/uber-go/tally/v4/m3"
+	m3thrift "github.com/uber-go/tally/v4/m3/thrift/v2"
 	"github.com/uber-go/tally/v4/m3/thriftudp"
 	"github.com/uber-go/tally/v4/thirdparty/github.com/apache/thrift/lib/go/thrift"
 	"pgregory.net/rapid"
 
+	"verifharness/internal/m3h"
 	"verifharness/internal/pbt"
 	"verifharness/internal/udpsink"
 )
@@ -340,4 +345,185 @@ func TestKnownFindings(t *testing.T) {
 			fmt.Printf("KNOWN-FINDING: property=C15 stale-prefix-after-refused-write: after a refused over-long write the bytes already buffered stay in the transport; the next message arrived as a %d-byte datagram (40000 stale bytes + the 5-byte message), and an M3 reporter that once built a batch larger than the transport buffer can never send again\n", len(d))
 		}
 	}
+}
+
+// ---------------------------------------------------------------- reporter level: send faults, then more traffic
+
+type RepCase struct {
+	Binary bool  `json:"binary"`
+	Up1    []int `json:"up1"`  // metrics per flush group while the destination is up
+	Down   []int `json:"down"` // flush groups reported while the destination is gone (send errors)
+	Up2    []int `json:"up2"`  // flush groups after the destination came back
+	Hist   bool  `json:"hist"` // use histogram bucket metrics (borrowed tag slices) instead of counters
+}
+
+func genRep(t *rapid.T) RepCase {
+	g := func(label string, min, max int) []int {
+		return rapid.SliceOfN(rapid.IntRange(1, 6), min, max).Draw(t, label)
+	}
+	return RepCase{Binary: rapid.Bool().Draw(t, "binary"), Up1: g("up1", 0, 3), Down: g("down", 2, 5), Up2: g("up2", 1, 4), Hist: rapid.Bool().Draw(t, "hist")}
+}
+
+func runRep(c RepCase) (pbt.Outcome, error) {
+	var errs pbt.Errs
+	var out pbt.Outcome
+	sink, err := udpsink.New()
+	if err != nil {
+		return out, fmt.Errorf("harness: %v", err)
+	}
+	port := sink.Port()
+	var mu sync.Mutex
+	batches := 0
+	m3.VerifSetHooks(&m3.VerifHooks{NoteBatch: func(mets []m3thrift.Metric, ct []m3thrift.MetricTag, f, o int32) {
+		mu.Lock()
+		batches++
+		mu.Unlock()
+	}})
+	defer m3.VerifSetHooks(nil)
+	nb := func() int { mu.Lock(); defer mu.Unlock(); return batches }
+	proto := m3.Compact
+	if c.Binary {
+		proto = m3.Binary
+	}
+	r, err := m3.NewReporter(m3.Options{HostPorts: []string{sink.Addr}, Service: "svc", Env: "test", Protocol: proto, MaxQueueSize: 64})
+	if err != nil {
+		sink.Close()
+		return out, fmt.Errorf("harness: NewReporter: %v", err)
+	}
+	defer r.Close()
+	cnt := r.AllocateCounter("c", map[string]string{"a": "b"})
+	hb := r.AllocateHistogram("h", map[string]string{"x": "y"}, tally.ValueBuckets{1, 2}).ValueBucket(1, 2)
+	group := map[int64]int{} // value -> flush group
+	groupPhase := map[int]string{}
+	next := int64(1)
+	gid := 0
+	emit := func(n int, phase string) {
+		gid++
+		groupPhase[gid] = phase
+		for i := 0; i < n; i++ {
+			group[next] = gid
+			if c.Hist {
+				hb.ReportSamples(next)
+			} else {
+				cnt.ReportCount(next)
+			}
+			next++
+		}
+		before := nb()
+		r.Flush()
+		// wait until the batching goroutine has taken the group (a flush marker always ends a batch)
+		deadline := time.Now().Add(5 * time.Second)
+		for nb() == before && time.Now().Before(deadline) {
+			time.Sleep(50 * time.Microsecond)
+		}
+	}
+	for _, n := range c.Up1 {
+		emit(n, "up1")
+	}
+	if !sink.WaitCount(nb(), 5*time.Second) {
+		errs.Addf("destination up: %d batches emitted, %d datagrams arrived", nb(), sink.Count())
+	}
+	first := sink.Datagrams()
+	sink.Close() // the destination goes away: sends now fail with ECONNREFUSED (every other one)
+	for _, n := range c.Down {
+		emit(n, "down")
+		time.Sleep(200 * time.Microsecond) // let the ICMP error come back
+	}
+	time.Sleep(500 * time.Microsecond) // the last down-phase send has left the reporter
+	sink2, err := udpsink.NewAt(port)
+	if err != nil {
+		return out, fmt.Errorf("harness: cannot re-open port %d: %v", port, err)
+	}
+	defer sink2.Close()
+	base := nb()
+	for _, n := range c.Up2 {
+		emit(n, "up2")
+	}
+	want2 := nb() - base
+	// one send may be swallowed by a socket error still pending from the outage: that one is not judged
+	sink2.WaitCount(want2-1, 5*time.Second)
+	sink2.WaitCount(want2, 2*time.Millisecond)
+	seen := map[int64]int{}
+	check := func(grams [][]byte, label string) {
+		for gi, d := range grams {
+			_, batch, err := m3h.Decode(c.Binary, d)
+			if err != nil {
+				errs.Addf("%s datagram %d does not decode as one message: %v", label, gi, err)
+				continue
+			}
+			groups := map[int]bool{}
+			for _, m := range batch.Metrics {
+				if m3h.IsInternal(m.Name) {
+					continue
+				}
+				v := m.Value.Count
+				g, ok := group[v]
+				if !ok {
+					errs.Addf("%s datagram %d carries a value %d that was never reported (corrupted metric %v)", label, gi, v, m)
+					continue
+				}
+				seen[v]++
+				groups[g] = true
+				wantTags := 1
+				if c.Hist {
+					wantTags = 3
+				}
+				if len(m.Tags) != wantTags {
+					errs.Addf("%s datagram %d: metric %q value %d has tags %v", label, gi, m.Name, v, m.Tags)
+				}
+			}
+			if len(groups) > 1 {
+				errs.Addf("%s datagram %d mixes metrics of %d different flush groups %v: a message that failed to send leaked into a later one", label, gi, len(groups), groups)
+			}
+		}
+	}
+	check(first, "first-phase")
+	check(sink2.Datagrams(), "after-recovery")
+	for v, n := range seen {
+		if n > 1 {
+			errs.Addf("value %d (flush group %d, phase %s) was delivered %d times", v, group[v], groupPhase[group[v]], n)
+		}
+	}
+	for v, g := range group {
+		if groupPhase[g] == "up1" && seen[v] != 1 {
+			errs.Addf("value %d reported while the destination was up was delivered %d times", v, seen[v])
+		}
+	}
+	// the groups after recovery: each arrives completely or - at most one of them, swallowed by a
+	// socket error still pending from the outage - not at all
+	have := map[int]int{}
+	size := map[int]int{}
+	for v, g := range group {
+		if groupPhase[g] == "up2" {
+			size[g]++
+			if seen[v] > 0 {
+				have[g]++
+			}
+		}
+	}
+	lost := 0
+	for g, n := range size {
+		switch {
+		case have[g] == 0:
+			lost++
+		case have[g] != n:
+			errs.Addf("flush group %d reported after the destination came back arrived partially (%d of %d values)", g, have[g], n)
+		}
+	}
+	if lost > 1 {
+		errs.Addf("%d of %d flush groups reported after the destination came back never arrived (at most one may be swallowed by a pending socket error): the reporter stopped emitting", lost, len(size))
+	}
+	out.NonTrivial = len(c.Up2) >= 2
+	if c.Hist {
+		out.Classes = append(out.Classes, "histogram-buckets")
+	}
+	return out, errs.Err()
+}
+
+func TestReporter(t *testing.T) {
+	pbt.Main(t, pbt.Prop[RepCase]{
+		ID: "C15", Name: "reporter",
+		Rule: "reporter-level fault sequences: an M3 reporter (Compact/Binary) sends 0..3 flush groups of 1..6 uniquely valued metrics (counters or histogram buckets) to a loopback destination, the destination then disappears (its socket is closed, so sends fail with ECONNREFUSED) while 2..5 more groups are reported, then the destination comes back on the same port and 1..4 more groups are reported. Oracle: everything sent while the destination was up arrives exactly once; no value is ever delivered twice; no datagram mixes metrics of different flush groups (a message that failed to send must not leak into a later one); every datagram decodes and carries intact tags; the reporter keeps emitting after the faults (all later groups arrive, except that the first may be swallowed by a pending socket error). Non-trivial: >=2 groups after recovery.",
+		Gen:  genRep, Run: runRep,
+	})
 }
